@@ -64,6 +64,8 @@ func genC11(t *rapid.T) c11Case {
 	}
 	op := rapid.Custom(func(t *rapid.T) c11Op {
 		switch k := rapid.IntRange(0, 12).Draw(t, "k"); {
+		case k < 1:
+			return c11Op{K: "arrive-cancelled"}
 		case k < 4:
 			return c11Op{K: "arrive"}
 		case k < 7:
@@ -159,6 +161,25 @@ func runC11InBubble(c c11Case) (out kit.Outcome) {
 
 	for i, op := range c.Ops {
 		switch op.K {
+		case "arrive-cancelled":
+			// a caller whose context is already done: with eviction it must not stay in line
+			time.Sleep(time.Millisecond)
+			synctest.Wait()
+			expire(w.now())
+			cl := w.newCaller("a", 0, 0)
+			cl.cancel()
+			w.start(cl)
+			switch {
+			case len(held) < limit:
+				held = append(held, cl)
+				expected[cl.ID] = true
+			case len(backlog) >= maxBacklog:
+				expected[cl.ID] = false
+			case evict:
+				expected[cl.ID] = false // evicted at once
+			default:
+				backlog = append(backlog, mw{cl, w.now() + timeout}) // cancellation is not observed
+			}
 		case "arrive":
 			time.Sleep(time.Millisecond) // distinct arrival (hence expiry) instants
 			synctest.Wait()              // timers due at this very instant fire before the arrival (no tie)
